@@ -9,7 +9,7 @@
 (* AtomicWrite and decides:                                                                      *)
 (*   P1  Post: dest is byte-identical to the previous file (or absent as before), or opens and   *)
 (*       every expected file reads back with the expected token                                  *)
-(*   P2  a build that exited with the Err status left the previous destination                   *)
+(*   P2  a build / rebuild that exited with the Err status left the previous destination         *)
 (*   P3  no write / truncate / O_TRUNC open ever targets the object linked at dest               *)
 (* Everything else the refined model predicts (class of dest computed from the system calls vs.  *)
 (* observed, temp files left after Err, compact returning Err after its commit point) is DRIFT.  *)
@@ -115,11 +115,11 @@ T_Post ==
     /\ IF ObsPrev(E) \/ ObsComplete(E) THEN TRUE
        ELSE Bad("dest is neither previous nor complete")
     \* P2
-    /\ IF tcur.op = "build" /\ vres = "err" /\ ~ObsPrev(E)
+    /\ IF tcur.op \in {"build", "rebuild"} /\ vres = "err" /\ ~ObsPrev(E)
          THEN Bad("build returned Err but dest changed") ELSE TRUE
     \* D-conjuncts
-    /\ IF tcur.op # "build" /\ vres = "err" /\ ~ObsPrev(E)
-         THEN Drift("compact returned Err after its commit point") ELSE TRUE
+    /\ IF tcur.op \notin {"build", "rebuild"} /\ vres = "err" /\ ~ObsPrev(E)
+         THEN Drift("Err returned after the commit point") ELSE TRUE
     /\ IF vres = "ok" /\ ~ObsComplete(E) /\ ObsPrev(E)
          THEN Drift("Ok returned but dest is still the previous file") ELSE TRUE
     /\ IF tcur.fkind = "none" /\ vres # "ok"
